@@ -91,7 +91,7 @@ type World struct {
 	finished    bool
 	simEnd      time.Duration
 
-	// GateSpawn (opt-in, set by a scenario before it starts the system): a child started by
+	// GateSpawn (on by default; a scenario may switch it off before it starts the system): a child started by
 	// the rewritten `go` statement first parks at a "spawn" point, so it begins to run only
 	// when the scheduler grants it - never concurrently with its parent. Without it the
 	// child races with the code the parent executes up to its next parked point (e.g. an
@@ -140,6 +140,7 @@ func NewWorld(cfg Config) *World {
 		faults: map[string]int{},
 		notes:  map[string]string{},
 	}
+	w.GateSpawn = true // children of rewritten go statements never run concurrently with their parent
 	w.strategy = cfg.Strategy
 	if w.strategy == "" {
 		w.strategy = []string{"uniform", "rtc", "rtc", "pct"}[w.str.intn(4)]
